@@ -84,6 +84,15 @@ func catalog(p ScenParams) *WSpec {
 		j := ProcSpec{Name: "j", Kind: kind, Ins: []string{"a", "b"}, Outs: []OutSpec{{Name: "out", Pattern: "{i:a}.j"}}}
 		w.Procs = []ProcSpec{src, src2, simpleProc("p", kind), j}
 		w.Edges = []Edge{fe("src", "out", "p", "in"), fe("p", "out", "j", "a"), fe("src2", "out", "j", "b")}
+	case "gsplit1": // src (one file of 3 lines) -> FileSplitter(1 line per part) -> recorder
+		spl := ProcSpec{Name: "split", Kind: "splitter", Ins: []string{"file"}}
+		rec := ProcSpec{Name: "rec", Kind: "recorder", Ins: []string{"in"}}
+		w.Procs = []ProcSpec{src, spl, rec}
+		w.Edges = []Edge{fe("src", "out", "split", "file"), fe("split", "split_file", "rec", "in")}
+		w.SourceContent = map[string]string{}
+		for _, it := range src.Items {
+			w.SourceContent[it] = "l1 of " + it + "\nl2\nl3\n"
+		}
 	case "gjoin2": // two joined in-ports of one task, each with its own sub-stream
 		f := strings.SplitN(p.Extra, "|", 2) // "SEP|SEP2"
 		j := ProcSpec{Name: "j", Kind: "joiner", JoinSep: f[0], JoinSep2: f[1]}
